@@ -1,3 +1,14 @@
--- Root of the `SkfemVerif` library: models, lemmas, property theorems, audits.
+-- Root of the `SkfemVerif` library: models, lemmas, property theorems.
 import SkfemVerif.Model.Np
 import SkfemVerif.Model.Topology
+import SkfemVerif.Model.Dofs
+import SkfemVerif.Model.Assembly
+import SkfemVerif.Lemmas.Np
+import SkfemVerif.Lemmas.Topology
+import SkfemVerif.Lemmas.Threads
+import SkfemVerif.Lemmas.Dofs
+import SkfemVerif.Lemmas.Assembly
+import SkfemVerif.Props.C01
+import SkfemVerif.Props.C04
+import SkfemVerif.Props.C11
+import SkfemVerif.Props.C16
